@@ -108,11 +108,11 @@ def run(ctx):
         return [b for b in sorted(bl) if tcp.blocks[b]['term']['k'] == 'call' and tcp.blocks[b]['term']['callee'].endswith("MutableTcpPacket::<'a>::" + name)]
     sa = arm_sites(dh, 'set_acknowledgement')
     v = peel(tcp.argv(sa[0], 1)) if len(sa) == 1 else None
-    ok = v is not None and is_call(v, r'u32>::wrapping_add$') and req('get_sequence')(v[2][0])
-    if ok:
-        ln = peel(v[2][1], casts=False)
-        ok = isinstance(ln, tuple) and ln[0] == 'cast' and ln[3] == 'u32' and is_call(peel(ln[2]), r'\[T\]>::len$') and \
-            is_call(peel(peel(ln[2])[2][0]), r"TcpPacket<'a> as pnet::packet::Packet>::payload$") and peel(peel(peel(ln[2])[2][0])[2][0]) == ('param', 1)
+    def is_paylen(x):
+        x = peel(x, casts=True)
+        return is_call(x, r'\[T\]>::len$') and is_call(peel(x[2][0]), r"TcpPacket<'a> as pnet::packet::Packet>::payload$") and peel(peel(x[2][0])[2][0]) == ('param', 1)
+    # seq + payload length (mod 2^32), in any spelling (wrapping_add, 64-bit sum cut to 32 bits, ...)
+    ok = v is not None and is_modsum(tcp.argv(sa[0], 1), [req('get_sequence'), is_paylen], 0)
     rep.check(r2, ok, 'data:ack', 'acknowledgement <- %s' % (short(v) if v else '%d sites' % len(sa)), tcp.loc(sa[0]) if sa else tcp.loc(dh))
     ss = arm_sites(dh, 'set_sequence')
     v = peel(tcp.argv(ss[0], 1)) if len(ss) == 1 else None
@@ -177,7 +177,7 @@ def run(ctx):
         fh = fin_heads[0]
         sa = arm_sites(fh, 'set_acknowledgement')
         v = peel(tcp.argv(sa[0], 1)) if len(sa) == 1 else None
-        ok = v is not None and is_call(v, r'u32>::wrapping_add$') and req('get_sequence')(v[2][0]) and const_val(v[2][1]) == 1
+        ok = v is not None and is_modsum(tcp.argv(sa[0], 1), [req('get_sequence')], 1)
         rep.check(r2, ok, 'finack:ack', 'acknowledgement <- %s' % (short(v) if v else None), tcp.loc(sa[0]) if sa else tcp.loc(fh))
         ss = arm_sites(fh, 'set_sequence')
         v = peel(tcp.argv(ss[0], 1)) if len(ss) == 1 else None
